@@ -22,20 +22,23 @@ f = f"/verif/seeded/{d}/meta.json"
 m = json.load(open(f))
 viol = re.findall(r"VIOLATION property=(\S+) replay=(\S+)( no-failing-input-found)?", out)
 why = [l[2:].strip() for l in out.split("\n") if l.startswith("# ")]
+other = m.get("detection", {}).get("other_properties_checks")
 m["detection"] = {
     "check": f"bin/check {p} --tier quick",
     "detected": bool(viol) and all(v[0] == p for v in viol),
-    "with_failing_input": bool(viol) and not any(v[2] for v in viol),
+    "with_failing_input": any(not v[2] for v in viol),
     "reported": why[:2],
     "how_run": f"tools/seedrun.sh seeded/{d}/patch.diff {p}  (git -C /repo apply; bin/check; git -C /repo checkout -- .)",
     "see": "DESIGN.md section 9",
 }
+if other:
+    m["detection"]["other_properties_checks"] = other
 if ext:
     v2 = re.findall(r"VIOLATION property=(\S+) replay=(\S+)( no-failing-input-found)?", ext)
     w2 = [l[2:].strip() for l in ext.split("\n") if l.startswith("# ")]
     m["detection"]["outside_the_quantifier"] = {
         "check": f"bin/check {p} --extended  (development mode: profiles outside the property's own quantifier)",
-        "detected": bool(v2), "with_failing_input": bool(v2) and not any(v[2] for v in v2), "reported": w2[:2],
+        "detected": bool(v2), "with_failing_input": any(not v[2] for v in v2), "reported": w2[:2],
     }
 json.dump(m, open(f, "w"), indent=1)
 PY
